@@ -146,9 +146,11 @@ def replay(g, make_adapter, nproc=None, split_min=48, edge_filter=None, max_devs
                         elif budget is not None:
                             if budget > 1:
                                 explore(dst, False, path + [(n, ei)], budget - 1)
-                        elif rec and parent.get(dst) == (n, ei):
-                            explore(dst, True, path + [(n, ei)], None)
-                        elif rec and lookahead > 0:
+                        elif parent.get(dst) == (n, ei):
+                            if rec:
+                                explore(dst, True, path + [(n, ei)], None)
+                        elif lookahead > 0:
+                            # a non-tree edge: continued here whether or not this task recurses
                             explore(dst, False, path + [(n, ei)], lookahead)
                     except BaseException as exc:      # harness failure inside the adapter
                         import traceback
